@@ -199,6 +199,18 @@ add("s_em_tail", Decl("SEmTail", [("n", Bits(2)), ("p", Bits(6)), ("d", Data(Fld
 add("s_em_at_then_before", Decl("SEmAtBefore", [("a", Int(1)), ("e", Em().at(3)), ("v", Data(3).at(2))]), 5, 6,
     "S", "move", "at", "em", "emptyinside")
 
+# combinations suggested by the seeded changes: positioned optional / bit group, byte order 'local', inner class options
+add("s_opt_at", Decl("SOptAt", [("t", Bits(1)), ("p", Bits(7)), ("o", Opt(Int(1), Fld("t")).at(3)), ("z", Int(1))]), 5, 6,
+    "S", "opt", "move", "at")
+add("s_bits_at", Decl("SBitsAt", [("a", Int(1)), ("x", Bits(3).at(2)), ("y", Bits(5)), ("z", Int(1))]), 5, 6, "S", "bits", "move", "at")
+add("s_int_local", Decl("SIntLocal", [("a", Int(2, endian="local")), ("b", Int(1)), ("c", Int(4, True, "local"))]), 7, 8,
+    "S", "int", "flat", "tail")
+InnerAlign = Decl("InnerAlign", [("a", Int(1)), ("b", Int(1))], align=2)
+add("n_inner_cls_align", Decl("OuterOfAligned", [("o", Int(1)), ("i", Ref(InnerAlign)), ("z", Int(1))]), 6, 7,
+    "N", "move", "align", "nest", "ref", "absolute")
+add("s_seq_at", Decl("SSeqAt", [("n", Bits(2)), ("p", Bits(6)), ("s", Seq(Int(1), count=Fld("n")).at(2)), ("z", Int(1))]), 6, 7,
+    "S", "seq", "count", "move", "at")
+
 # ----------------------------------------------------------------------------- D: documented packets
 add("d_tlv", Decl("TLV", [("type", Int(1)), ("length", Int(1)), ("value", Data(Fld("length")))]), 4, 5, "D", "data", "ctl8", "size")
 add("d_based_on_other", Decl("BasedOnOther", [("length", Bits(2)), ("pad", Bits(6)), ("a", Data(2)),
@@ -322,6 +334,9 @@ add("g_bridge", Decl("GBridge", [("a", Int(2, endian="little")), ("d", Data(2)),
                                  ("c", Int(4, True, "little")), ("f", Data(1)), ("g", Int(8))]), 20, 21, "G", "flat")
 add("g_bridge_cls", Decl("GBridgeCls", [("d", Data(1)), ("a", Int(2)), ("e", Data(2)), ("b", Int(2, endian="big")), ("c", Int(1))],
                          endianness="little"), 8, 9, "G", "flat")
+add("g_data_tail", Decl("GDataTail", [("n", Int(1)), ("d", Data(Fld("n"))), ("t", Data(2))]), 5, 6, "G", "tail")
+add("g_data_alone_le", Decl("GDataAloneLe", [("a", Int(2, endian="little")), ("b", Int(2, endian="little")), ("t", Data(3))]), 7, 8,
+    "G", "flat", "tail")
 add("g_loops", Decl("GLoops", [("t", Bits(1)), ("n", Bits(2)), ("p", Bits(5)), ("s", Seq(Int(2), count=Fld("n"))),
                                ("o", Opt(Int(1), Fld("t"))), ("z", Int(2, endian="little")), ("y", Int(1))]), 8, 10, "G")
 add("g_moves", Decl("GMoves", [("a", Int(1)), ("b", Int(2).at(2)), ("c", Int(1)), ("d", Int(2).aligned(4, "innermost-pkt"))]),
